@@ -1,16 +1,16 @@
 SPECIFICATION Spec
 CONSTANTS
-  Programs <- AllPrograms
+  Programs <- Family3
   QuerySeqs <- QS3
   Permute = TRUE
-  CheckOnTableHit = FALSE
+  CheckOnTableHit = TRUE
   RepairFalseResult = FALSE
 VIEW view
 INVARIANT NoDanglingMessages
 INVARIANT NoError
 INVARIANT NegCycleOnlyWhenCyclic
+INVARIANT AnsweredOnlyWhenDefined
 INVARIANT StackEmpty
 INVARIANT TableSound
 INVARIANT ResultCorrect
-CONSTRAINT Export
 CHECK_DEADLOCK FALSE
